@@ -16,7 +16,7 @@ THEOREMS = [
     "C18.mermaid_ids_injective", "C18.mermaid_ids_nodup", "C18.mermaid_edges_exact", "C18.mermaid_vertices",
     "C18.mermaid_single_no_vertex",
     "C18.dot_vertices_labels", "C18.dot_edges_exact", "C18.dot_ids_injective_partial", "C18.dot_ids_not_injective",
-    "C18.h_places_all_nodes", "C18.h_bands", "C18.h_leaf_order", "C18.h_rows_in_range", "C18.h_parent_in_span", "C18.h_gap_assert",
+    "C18.h_places_all_nodes", "C18.h_bands", "C18.h_leaf_order", "C18.h_rows_in_range", "C18.h_parent_in_span", "C18.h_gap_assert", "C18.h_decodable", "C18.h_injective",
     "C18.builtin_hstyles_ok", "C18.h_ascii_not_injective",
 ]
 PROOF_IMPORTS = ["BigtreeProofs.Properties.C18"]
@@ -34,7 +34,7 @@ MODELLED = [
     "pydot is an external call: vertices/edges are read back with get_nodes()/get_edges(); names containing ':' (pydot port syntax) or '\"' are not generated for dot cases",
     "only the flow lines of the mermaid text are modelled (default shape/arrow); title, styles and class definitions are not part of the property",
     "print(...) is observed through file=io.StringIO()",
-    "horizontal decodability is TESTED, not proved: the Lean decoder Render.hdecode is run by the driver on the model's own hyieldTree output for every generated tree (op=hdec) and must return the tree",
+    "horizontal decodability is proved for the Lean decoder Render.hdecode (C18.h_decodable); in addition the decoder is run by the driver on the model's own hyieldTree output for every generated tree (op=hdec), and the oracle decodes the REAL text with an independent Python reader",
 ]
 ASSUMPTIONS = [
     "node names contain no line break; decodability claims are for names without leading blanks / style glyphs (vertical) and without blanks / style glyphs (horizontal)",
@@ -49,10 +49,11 @@ LEVEL_TEXT = ("proof (Lean 4) of: vertical layout = structural specification for
               "when there are >= 2 nodes (one-node case refuted: K3), dot: one labelled vertex per node, edges = links through the ids, ids pairwise "
               "distinct when no name ends in a digit (unconditional statement refuted: K2), horizontal: hplace lists all nodes, column bands, leaf "
               "order, parent row inside its children's span, the gap assertion never fires; "
-              "PARTIAL: horizontal decodability is only TESTED (Lean decoder hdecode run by the driver on every generated tree, op=hdec; refuted for "
-              "the pinned built-in 'ascii' style: K4, all other generated HPRINT_STYLES entries meet hstyleOk by decide); "
+              "horizontal decodability (Tier 2): hdecode(hyield_tree(t)) = t for every style meeting hstyleOk (all generated HPRINT_STYLES entries except "
+              "the pinned 'ascii' entry, by decide; refuted for 'ascii': K4) and names without white space, hence the horizontal form is injective on Node trees; "
+              "PARTIAL: dot ids only conditionally injective (K2), mermaid one-node rendering (K3), ascii horizontal style (K4); "
               "everything is tied to /repo by the correspondence check (exact text / vertex+edge multisets / flow lines)")
-LEVEL_NOTE = "horizontal decode partial (tested, not proved); dot ids conditional (K2); mermaid single node (K3); ascii hstyle ambiguous (K4)"
+LEVEL_NOTE = "dot ids conditional (K2); mermaid single node (K3); ascii hstyle ambiguous (K4); horizontal decode proved for the Lean decoder and tested on real output by the oracle's Python reader"
 TECHNIQUE = "Lean 4 model of the renderers + kernel-checked theorems; differential test real bigtree vs compiled model; generated style tables discharged by decide"
 
 BUILTIN = ["ansi", "ascii", "const", "const_bold", "rounded", "double"]
